@@ -18,6 +18,17 @@ KINDS = ["buffer", "delay", "rate_limit", "map_async", "timed_window", "partitio
 EXTRA = ["StreamzVerif.Props.C13"]
 
 CORPUS = [
+    # repaired 63350ae: start() reaching a running map_async node (here through its sink) replaced the live worker; the old one still
+    # took the next task and the two emitted concurrently - [3, 2] when the second job finishes first
+    {"mode": "async", "flavour": "future", "nodes": [{"kind": "source", "ups": []}, {"kind": "map_async", "f": ["inc"], "parallelism": 2, "ups": [0]},
+                                                      {"kind": "sink", "mode": "sync", "f": ["id"], "ups": [1]}],
+     "ops": [{"op": "settle"}, {"op": "emit", "node": 0, "val": 1, "md": []}, {"op": "start", "node": 2}, {"op": "emit", "node": 0, "val": 2, "md": []},
+             {"op": "jobdone", "job": 1}, {"op": "jobdone", "job": 0}]},
+    # repaired (second fix): stop();start() with a task in flight - the new worker ran next to the old one
+    {"mode": "async", "flavour": "future", "nodes": [{"kind": "source", "ups": []}, {"kind": "map_async", "f": ["inc"], "parallelism": 2, "ups": [0]},
+                                                      {"kind": "sink", "mode": "sync", "f": ["id"], "ups": [1]}],
+     "ops": [{"op": "settle"}, {"op": "emit", "node": 0, "val": 1, "md": []}, {"op": "emit", "node": 0, "val": 2, "md": []}, {"op": "restart", "node": 2},
+             {"op": "jobdone", "job": 1}, {"op": "jobdone", "job": 0}]},
     # one producer of a zip far ahead of the other (un-awaited emissions): pairing must stay index-wise
     {"mode": "async", "flavour": "future", "nodes": [{"kind": "source", "ups": []}, {"kind": "source", "ups": []}, {"kind": "zipmax", "ups": [0, 1], "maxsize": 1},
                                                       {"kind": "sink", "mode": "sync", "f": ["id"], "ups": [2]}],
@@ -72,6 +83,25 @@ def saturation_races(thorough):
                         late.append(em(p + 3 + j))
                     script.append({"op": "multi", "ops": [first] + late})
                     out.append((nodes, script))
+                    if n == 0:
+                        # ... and with an emission BEFORE the completion in the same loop callback: its insert job has been created
+                        # but has not run yet when the slot is freed and the next emission arrives
+                        pre = list(script[:-1])
+                        pre.append({"op": "multi", "ops": [em(p + 3), first] + [em(p + 4 + j) for j in range(extra)]})
+                        out.append((nodes, pre))
+    # an emission queued BEFORE and one queued AFTER the wake-ups a completion causes, both landing k iterations later: the two
+    # arrive in one loop iteration with the worker's slot-freeing handle between them
+    for p in (1, 2):
+        for k in range(1, 8 if thorough else 7):
+            nodes = [{"kind": "source", "ups": []}, {"kind": "map_async", "f": ["inc"], "parallelism": p, "ups": [0]},
+                     {"kind": "sink", "mode": "sync", "f": ["id"], "ups": [1]}]
+
+            def em(v):
+                return {"op": "emit", "node": 0, "val": v, "md": [{"tag": v, "ref": v}]}
+            script = [em(v) for v in range(1, p + 2)]
+            script.append({"op": "multi", "ops": [{"op": "after", "n": k, "ops": [em(p + 2)]}, {"op": "jobdone", "job": 0},
+                                                  {"op": "after", "n": k, "ops": [em(p + 3)]}]})
+            out.append((nodes, script))
     return out
 
 
@@ -107,6 +137,8 @@ def run(ctx):
     A.sweep(ctx, n // 3, KINDS, ["lossless"], SIGS, p_zip=0.1, opts={"p_multi": 0.3})
     # ... and emissions placed a chosen number of loop iterations (1-9) after a completion, producers not awaiting
     A.sweep(ctx, n // 3, KINDS, ["lossless"], SIGS, p_zip=0.1, opts={"p_multi": 0.45, "p_turns": 0.8})
+    # ... and start() / stop();start() called on nodes of the running pipeline (both walk upstream; data in flight must be unaffected)
+    A.sweep(ctx, n // 3, KINDS, ["lossless"], SIGS, p_zip=0.1, opts={"p_start": 0.18, "p_restart": 0.5, "p_multi": 0.2})
     for i, (nodes, script) in enumerate(saturation_races(ctx.thorough())):
         case, obs = ac.run_adaptive(nodes, ctx.rng, len(script), opts={"script": script}, flavour=("future", "coro", "tornado")[i % 3])
         ac.evaluate(ctx, case, obs, ["lossless"], SIGS)
